@@ -58,6 +58,7 @@ func main() {
 			seed = v
 		}
 	}
+	verifDirGlobal = *verif
 	pd := props[*prop]
 	if pd == nil {
 		fmt.Fprintf(os.Stderr, "unknown property %q\n", *prop)
@@ -142,6 +143,8 @@ func isFlagSet(name string) bool {
 	return set
 }
 
+var verifDirGlobal = "/verif"
+
 func runOne(pd *propDef, repo, tier string, seed int64, goos, goarch string) (r *Report) {
 	r = NewReport(pd.ID, tier, seed)
 	r.NotDec = pd.NotDec
@@ -174,6 +177,9 @@ func runOne(pd *propDef, repo, tier string, seed int64, goos, goarch string) (r 
 		r.OKTrivial("LOAD", "packages", "-", fmt.Sprintf("%d root packages, %d total, %d helm functions in SSA form", len(w.Roots), len(w.All), len(w.helmFns)))
 	}
 	pd.Run(w, r)
+	if goos == "" || goos == "linux" {
+		selfTest(verifDirGlobal, r)
+	}
 	return r
 }
 
